@@ -11,7 +11,9 @@ Definition check_with (g1 g2 : verdict -> bool) (x : lcase * lout) : Z :=
   | (L2 pc, LO2 p) =>
       match model_of_id (pc_model pc) with
       | Some m => code (match run_pcase2 pc with Some mo => pout2_eqb mo p | None => false end)
-                       (g2 (judge pc (decode_pout2 pc m p)))
+                       (g2 (judge pc (decode_pout2 pc m p)) &&
+                        (* the data pins may idle high before the first word *)
+                        g2 (judge pc (decode_pout2_from (lines_high (bus_width pc)) pc m p)))
       | None => 3
       end
   | _ => 3
